@@ -16,7 +16,7 @@ RULE = ("two-stage runs: stage 1 builds the generated system fault-free, stage 2
 ASSUMPTIONS = wa.ASSUMPTIONS
 REAL_VS_STUB = wa.REAL_VS_STUB
 PROBES = wa.PROBES + ["atoms_supplied", "centres_supplied", "supplied_and_generated_in_one_system",
-                      "ignored_molecule_present", "ignored_molecule_not_last", "earlier_call_same_input_path", "pdb_input", "synthetic_centres", "ligand_placed_with_host", "resid_restart_inside_molecule", "split_with_supplied_atoms", "start_on_supplied_residue", "pdb_input_without_box_record", "relative_input_path_with_decoy_next_to_topology", "ligand_on_cyclic_host", "atom_number_column_restarts"]
+                      "ignored_molecule_present", "ignored_molecule_not_last", "earlier_call_same_input_path", "pdb_input", "synthetic_centres", "ligand_placed_with_host", "resid_restart_inside_molecule", "split_with_supplied_atoms", "start_on_supplied_residue", "pdb_input_without_box_record", "relative_input_path_with_decoy_next_to_topology", "ligand_on_cyclic_host", "atom_number_column_restarts", "moltype_named_like_residue"]
 PROFILE = {"p_atomno_restart": 0.15, "p_rel_inputs": 0.12, "p_synth_centres": 0.25, "sol_p": 0.25, "p_pdb": 0.2, "p_pre_call": 0.3, "n_moltypes": (1, 3), "n_entries": (2, 4), "max_molecules": 8, "max_count": 3, "maxres": 7,
            "box_modes": ["cubic", "cubic", "noncubic", "density"], "faults": ["step", "start", "overlap"],
            "maxiter": [0, 1, 2, 800], "dilute_hint": True}
@@ -60,6 +60,24 @@ def gen_job(verif_seed, tier, index):
             jobgen.add_start_on_supplied(job, st.gen)
         job["two_stage"] = ok
         return job
+    if st.gen.random() < 0.05:
+        # a molecule type that carries the NAME of one of its residue types (PEO built from PEO units and end groups),
+        # and -res naming it: only the residues of that name are to be rebuilt
+        spec = job["spec"]
+        cands = [m for m in spec["moltypes"] if len(set(m["residues"])) >= 2
+                 and any(n == m["name"] for n, _ in spec["molecules"])]
+        if cands:
+            mt = cands[0]
+            rn = mt["residues"][len(mt["residues"]) // 2]
+            old = mt["name"]
+            if not any(m["name"] == rn for m in spec["moltypes"]):
+                mt["name"] = rn
+                spec["molecules"] = [[rn if n == old else n, c] for n, c in spec["molecules"]]
+                ok = jobgen.add_coordinates(job, st.gen, dict(PROFILE, coord_modes=["res", "meta_res"], p_synth_centres=0.0),
+                                            force_res=[rn])
+                job["two_stage"] = ok
+                job["moltype_named_like_residue"] = True
+                return job
     if st.gen.random() < 0.08:
         # -split together with an atom-level structure (whole residues supplied, the rest built)
         ok = jobgen.add_coordinates(job, st.gen, dict(PROFILE, coord_modes=["prefix", "prefix", "full"], p_synth_centres=0.0))
@@ -81,6 +99,8 @@ def _nt(j, r):
         r["probes"]["split_with_supplied_atoms"] = 1
     if j.get("ligand_on_cyclic_host") and j["opts"].get("ligands"):
         r["probes"]["ligand_on_cyclic_host"] = 1
+    if j.get("moltype_named_like_residue"):
+        r["probes"]["moltype_named_like_residue"] = 1
     if j.get("atom_numbers_restart"):
         r["probes"]["atom_number_column_restarts"] = 1
     if j.get("start_on_supplied"):
